@@ -155,7 +155,7 @@ inductive Act
   | lose (s : Slot)
   /-- ownership moves (`mem::take` / assignment): `dst := dst ++ src; src := []` -/
   | move (src dst : Slot)
-deriving Repr
+deriving Repr, DecidableEq
 
 def fresh (a : Nat) (next : Nat) : Nat → List BlockId
   | 0 => []
